@@ -27,6 +27,8 @@ THEOREMS = [
     "Determinism.projectname_counterexample_old", "Determinism.projectname_old_depends_on_enumeration",
     "Determinism.keyed_writes_invariant", "Determinism.run_writes_through", "Determinism.run_characterization",
     "Determinism.rerun_idempotent", "Determinism.output_independent_of_old_content",
+    "Determinism.buildtime_function_of_inputs", "Determinism.buildtime_epoch_used", "Determinism.buildtime_epoch_zero",
+    "Determinism.buildtime_option_wins", "Determinism.buildtime_clock_when_unset", "Determinism.buildtime_notInt_refused",
 ]
 PARTIAL = {
     "Determinism.rerun_idempotent":
@@ -40,10 +42,14 @@ RULE = ("generated projects (1-3 roots: packages and plain modules; with / witho
         "docstrings with cross references; duplicates; private names; attrs / zope.interface / deprecate uses; stray "
         "non-module directory entries) each built by the real pydoctor in subprocesses under 4 PYTHONHASHSEED values x 2 "
         "directory-listing orders (os.listdir / os.scandir / Path.iterdir reordered inside the child) x fresh and reused "
-        "output directory, fixed SOURCE_DATE_EPOCH, plus two --buildtime builds; whole output trees compared byte for "
-        "byte (sha-256 of every file, symlink targets, file set; no normalisation). One evaluation = one build of one "
-        "project compared with that project's reference build. Non-trivial = the project has >= 2 roots, or a package "
-        "with >= 3 directory entries, or the build went into a reused directory.")
+        "output directory, EVERY build at its own wall-clock second (datetime.now / time.time moved inside the child, no "
+        "sleeping), plus the reference build repeated at another second, plus two --buildtime builds with the variable "
+        "unset. SOURCE_DATE_EPOCH is fixed per project and cycles over 0, 1700000000, 1, 2^31-1, 2^31, a 12-digit value, -1, "
+        "'abc', '00', '0 ', 1000000000, a year-10000 value and 10^18 (the last and 'abc' / year-10000 are refused by the "
+        "unchanged tree: they must be refused the same way by every run and leave no output). Whole output trees compared "
+        "byte for byte (sha-256 of every file, symlink targets, file set; no normalisation). One evaluation = one build of "
+        "one project compared with that project's reference build. Non-trivial = the project has >= 2 roots, or a package "
+        "with >= 3 directory entries, or the build went into a reused directory, or ran at another wall-clock second.")
 ASSUMPTIONS = [
     "the static scan that ties the site catalogue (harness/c18_sites.json) to the code is a syntactic, flow-insensitive "
     "HEURISTIC (harness/sitescan.py): sets reaching an Iterable parameter, sets built by third-party code and dynamic "
@@ -59,6 +65,11 @@ ASSUMPTIONS = [
     "sorted(package_path.iterdir()) compares pathlib paths of one directory, i.e. their names as str (code point order)",
     "the output-directory model is flat: names are paths relative to the output directory, links point to names of the "
     "same directory, at most 40 links are followed (Linux); directories (mkdir(exist_ok=True)) are not entries",
+    "the wall clock is moved by rebinding datetime.datetime (a subclass whose now/utcnow/today are fixed) and time.time inside "
+    "the child before pydoctor is imported; a reader of the clock that bypasses both (C level) would not be moved - builds "
+    "still run at naturally different times, but not necessarily in different seconds; children run with TZ=UTC",
+    "int() and datetime.utcfromtimestamp() decide how a SOURCE_DATE_EPOCH string is classified for the model "
+    "(CPython is the reference for these two parameters)",
     "different builds of one project use different absolute output paths (they run in parallel); pydoctor does not "
     "write the output path into the output",
 ]
@@ -70,6 +81,13 @@ TRUSTED = ["sha-256 equality stands for byte equality of files"]
 
 EPOCH = 1000000000
 BUILDTIME = "2001-09-09 01:46:40"          # the same instant, in driver.BUILDTIME_FORMAT
+# the environment dimension: SOURCE_DATE_EPOCH of project number n is EPOCHS[n % len(EPOCHS)] (all builds of one
+# project share it - "the same build time"); unset + --buildtime is the `bt` pair of builds every project gets.
+# 0 / '00' / '0 ' are the legal boundary value (the epoch itself); the last three are refused by the unchanged tree
+# (error exit, error exit, traceback) - the same way in every run.
+EPOCHS = ["0", "1700000000", "1", "2147483647", "2147483648", "123456789012", "-1", "abc", "00", "0 ",
+          str(EPOCH), "253402300800", "1000000000000000000"]
+CLOCK_BASE = 1750000000
 SUMMARY_NAMES = {"moduleIndex.html", "classIndex.html", "nameIndex.html", "undoccedSummary.html"}
 SEARCH_NAMES = {"all-documents.html", "searchindex.json", "fullsearchindex.json"}
 
@@ -281,17 +299,50 @@ def diff_kind(a: Dict[str, Tuple[str, ...]], b: Dict[str, Tuple[str, ...]]) -> s
     return "other"
 
 
+def classify_epoch(value: Optional[str]) -> str:
+    """the model's EnvEpoch token for a SOURCE_DATE_EPOCH string; int() and utcfromtimestamp() are CPython's
+    (parameters of the model with CPython as their reference)"""
+    import datetime
+    import warnings
+    if value is None:
+        return "unset"
+    try:
+        n = int(value)
+    except ValueError:
+        return "notint"
+    try:
+        with warnings.catch_warnings():
+            warnings.simplefilter("ignore")
+            datetime.datetime.utcfromtimestamp(n)
+    except ValueError:
+        return "yearrange"
+    except (OverflowError, OSError):
+        return "platformrange"
+    return "v=%d" % n
+
+
+def clock_for(p: Dict[str, Any], *key: Any) -> int:
+    """a wall-clock instant for one build: a deterministic function of the build, never the same second twice"""
+    import random
+    return CLOCK_BASE + random.Random("%s|%r" % (project_digest(p), key)).randrange(-10 ** 7, 10 ** 7)
+
+
 def run_build(p: Dict[str, Any], src: Path, out: Path, hashseed: int, mode: str, sidecar: Path,
-              buildtime: bool = False, timeout: int = 1500) -> Dict[str, Any]:
+              tag: str = "", clock: int = CLOCK_BASE, timeout: int = 1500) -> Dict[str, Any]:
+    """tag: '' = SOURCE_DATE_EPOCH of the project; 'clock' = the same at another wall-clock time; 'bt' = variable
+    unset, --buildtime given; 'noenv' = neither (correspondence of the build-time decision only)"""
     env = subprocess_env(hashseed)
     env.pop("SOURCE_DATE_EPOCH", None)
+    env["TZ"] = "UTC"
     args = [a.replace("@SRC@", str(src)) for a in p["args"]]
-    if buildtime:
+    epoch: Optional[str] = None
+    if tag == "bt":
         args.append("--buildtime=" + BUILDTIME)
-    else:
-        env["SOURCE_DATE_EPOCH"] = str(EPOCH)
+    elif tag != "noenv":
+        epoch = p.get("epoch", str(EPOCH))
+        env["SOURCE_DATE_EPOCH"] = epoch
     cmd = [sys.executable, "-m", "harness.impl.launch_shuffled", mode, "--sidecar", str(sidecar),
-           "--outdir", str(out), "--srcroot", str(src), "--",
+           "--outdir", str(out), "--srcroot", str(src), "--clock", str(clock), "--",
            "-q", "--html-output=" + str(out)] + args + [str(src / r) for r in p["roots"]]
     pre = snapshot(out)
     try:
@@ -306,19 +357,22 @@ def run_build(p: Dict[str, Any], src: Path, out: Path, hashseed: int, mode: str,
             side = json.loads(sidecar.read_text())
         except ValueError:
             side = {}
-    return {"exit": pr.returncode, "stderr_tail": tail, "side": side, "pre": pre, "post": snapshot(out),
-            "hashseed": hashseed, "mode": mode, "buildtime": buildtime}
+    return {"exit": pr.returncode, "stderr_tail": tail, "traceback": "Traceback (most recent call last)" in err,
+            "side": side, "pre": pre, "post": snapshot(out), "hashseed": hashseed, "mode": mode, "tag": tag,
+            "epoch": epoch, "clock": clock}
 
 
-def job(p: Dict[str, Any], src: Path, base: Path, hashseed: int, mode: str, buildtime: bool) -> List[Dict[str, Any]]:
-    """fresh build, then the same build again into the same directory"""
-    tag = "%d_%s%s" % (hashseed, mode.replace(":", ""), "_bt" if buildtime else "")
-    out = base / ("out_" + tag)
-    r1 = run_build(p, src, out, hashseed, mode, base / ("side_%s_1.json" % tag), buildtime)
+def job(p: Dict[str, Any], src: Path, base: Path, hashseed: int, mode: str, tag: str) -> List[Dict[str, Any]]:
+    """fresh build, then (matrix builds) the same build again into the same directory; every build at its own
+    wall-clock second"""
+    name = "%d_%s%s" % (hashseed, mode.replace(":", ""), "_" + tag if tag else "")
+    out = base / ("out_" + name)
+    r1 = run_build(p, src, out, hashseed, mode, base / ("side_%s_1.json" % name), tag, clock_for(p, hashseed, mode, tag, 1))
     r1["reused"] = False
-    if buildtime:
+    if tag:
+        shutil.rmtree(out, ignore_errors=True)
         return [r1]
-    r2 = run_build(p, src, out, hashseed, mode, base / ("side_%s_2.json" % tag), buildtime)
+    r2 = run_build(p, src, out, hashseed, mode, base / ("side_%s_2.json" % name), tag, clock_for(p, hashseed, mode, tag, 2))
     r2["reused"] = True
     shutil.rmtree(out, ignore_errors=True)
     return [r1, r2]
@@ -335,7 +389,7 @@ def matrix(ctx_seed: int, quick: bool, n: int = 0) -> Tuple[List[int], List[str]
 
 # ------------------------------------------------------------------ the direct oracle
 
-def oracle(ctx: Ctx, p: Dict[str, Any], results: Dict[Tuple[int, str, bool], List[Dict[str, Any]]],
+def oracle(ctx: Ctx, p: Dict[str, Any], results: Dict[Tuple[int, str, str], List[Dict[str, Any]]],
            seeds: List[int], modes: List[str]) -> None:
     """byte comparison of every build with the reference build; failures classified by cause"""
     multi_unnamed = len(p["roots"]) >= 2 and p.get("explicit") is None
@@ -343,13 +397,28 @@ def oracle(ctx: Ctx, p: Dict[str, Any], results: Dict[Tuple[int, str, bool], Lis
     if p.get("srcroot"):
         inp["srcroot"] = p["srcroot"]
     ok_exit = (0, 2, 3)
-    allres = [r for rs in results.values() for r in rs]
+    inp["epoch"] = p.get("epoch", str(EPOCH))
+    envclass = classify_epoch(inp["epoch"])
+    ctx.count("env:SOURCE_DATE_EPOCH=" + (envclass if not envclass.startswith("v=") else repr(inp["epoch"])))
+    mat = {k: rs for k, rs in results.items() if k[2] == ""}
+    allres = [r for rs in mat.values() for r in rs] + results.get((seeds[0], modes[0], "clock"), [])
     exits = sorted({r["exit"] for r in allres})
+    if not envclass.startswith("v="):
+        # a value the unchanged tree refuses: it must be refused the same way by every run, and leave no output
+        ctx.count("env-refused:" + envclass)
+        for r in allres:
+            ctx.case("%s %d %s %s refused" % (project_digest(p), r["hashseed"], r["mode"], r["reused"]), True, None)
+        if any(e in ok_exit for e in exits) or len(exits) > 1 or len({r["traceback"] for r in allres}) > 1:
+            ctx.fail("env:refused-inconsistently", inp, "SOURCE_DATE_EPOCH=%r: exit codes %s over the builds of one project" % (inp["epoch"], exits))
+        elif any(r["post"] for r in allres):
+            ctx.fail("env:refused-with-output", inp, "SOURCE_DATE_EPOCH=%r is refused but output was written" % inp["epoch"])
+        oracle_buildtime_pair(ctx, p, inp, results, None, False)
+        return
     if any(e not in ok_exit for e in exits):
         # a crashing build is C01's subject; here only "crashes under some seeds / orders and not under others" counts
         ctx.count("build-crashed")
-        rerun_only = [rs for rs in results.values() if len(rs) == 2 and rs[0]["exit"] in ok_exit and rs[1]["exit"] not in ok_exit]
-        if rerun_only and all(rs[0]["exit"] in ok_exit for rs in results.values()):
+        rerun_only = [rs for rs in mat.values() if len(rs) == 2 and rs[0]["exit"] in ok_exit and rs[1]["exit"] not in ok_exit]
+        if rerun_only and all(rs[0]["exit"] in ok_exit for rs in mat.values()):
             ctx.fail("reused-dir:exit-status", inp, "the build succeeds into a fresh directory and exits %s when run again into "
                      "the directory it produced: %s" % (rerun_only[0][1]["exit"], rerun_only[0][1]["stderr_tail"][-200:]))
         elif len(exits) > 1:
@@ -359,14 +428,25 @@ def oracle(ctx: Ctx, p: Dict[str, Any], results: Dict[Tuple[int, str, bool], Lis
         return
     if len(exits) > 1:
         ctx.fail("exit-status-differs", inp, f"exit codes {exits} for one project")
-    ref = results[(seeds[0], modes[0], False)][0]
+    ref = results[(seeds[0], modes[0], "")][0]
     nfail_before = sum(f["count"] for f in ctx.failures)
+    # (t) the wall clock: the reference build again, same seed, same listing, fresh directory, another second
+    for r in results.get((seeds[0], modes[0], "clock"), []):
+        ctx.case("%s %d %s clock" % (project_digest(p), r["hashseed"], r["mode"]), True, None)
+        ctx.count("build:other-wall-clock")
+        k = diff_kind(ref["post"], r["post"])
+        if k:
+            ctx.fail("wall-clock:" + k, inp, "SOURCE_DATE_EPOCH=%r, same hash seed and listing order, wall clock %d vs %d: %s differ "
+                     "(build time shown: %s vs %s)" % (inp["epoch"], ref["clock"], r["clock"], diff_snap(ref["post"], r["post"])[:4],
+                                                       ref["side"].get("buildtime"), r["side"].get("buildtime")))
+            oracle_buildtime_pair(ctx, p, inp, results, ref, False)
+            return      # every other comparison of this project would only repeat it
     files = p.get("files", {})
     pkgdirs = {os.path.dirname(f) for f in files if f.endswith("/__init__.py")}
     pkg3 = any(len({f[len(d) + 1:].split("/")[0] for f in files if f.startswith(d + "/")}) >= 3 for d in pkgdirs)
     byname: Dict[str, Dict[str, Tuple[str, ...]]] = {}
-    for (hs, mode, bt), rs in sorted(results.items()):
-        if bt:
+    for (hs, mode, tag), rs in sorted(results.items()):
+        if tag:
             continue
         for r in rs:
             nontriv = len(p["roots"]) >= 2 or pkg3 or r["reused"] or p.get("kind") != "generated"
@@ -380,7 +460,7 @@ def oracle(ctx: Ctx, p: Dict[str, Any], results: Dict[Tuple[int, str, bool], Lis
             ctx.fail("reused-dir:" + k, inp, "hash seed %d, listing %s: running again into the directory of the previous run "
                      "changes %s" % (hs, mode, diff_snap(first["post"], second["post"])[:4]))
         # (b) listing order, same hash seed
-        base_same_seed = results[(hs, modes[0], False)][0]
+        base_same_seed = results[(hs, modes[0], "")][0]
         if mode != modes[0]:
             k = diff_kind(base_same_seed["post"], first["post"])
             if k:
@@ -409,24 +489,36 @@ def oracle(ctx: Ctx, p: Dict[str, Any], results: Dict[Tuple[int, str, bool], Lis
                         nm, diff_snap(byname[nm], first["post"])[:4]))
             elif mode == modes[0]:
                 byname[nm] = first["post"]
-    # --buildtime: two builds with the same --buildtime and different hash seeds / listings
-    bts = [rs[0] for (hs, mode, bt), rs in sorted(results.items()) if bt]
+    oracle_buildtime_pair(ctx, p, inp, results, ref, nfail_before != sum(f["count"] for f in ctx.failures),
+                          nontrivial=len(p["roots"]) >= 2 or pkg3)
+
+
+def oracle_buildtime_pair(ctx: Ctx, p: Dict[str, Any], inp: Dict[str, Any], results: Dict[Tuple[int, str, str], List[Dict[str, Any]]],
+                          ref: Optional[Dict[str, Any]], already: bool, nontrivial: bool = True) -> None:
+    """SOURCE_DATE_EPOCH unset, the same --buildtime: two builds with different hash seed, listing order and wall clock"""
+    multi_unnamed = len(p["roots"]) >= 2 and p.get("explicit") is None
+    bts = [rs[0] for (hs, mode, tag), rs in sorted(results.items()) if tag == "bt"]
     for r in bts:
-        ctx.case("%s %d %s buildtime" % (project_digest(p), r["hashseed"], r["mode"]), len(p["roots"]) >= 2 or pkg3, None)
+        ctx.case("%s %d %s buildtime" % (project_digest(p), r["hashseed"], r["mode"]), nontrivial, None)
         ctx.count("build:buildtime")
-    already = nfail_before != sum(f["count"] for f in ctx.failures)
     if len(bts) >= 2:
+        if {r["exit"] for r in bts} - {0, 2, 3}:
+            if len({r["exit"] for r in bts}) > 1:
+                ctx.fail("exit-status-differs", inp, "--buildtime builds exit %s" % sorted({r["exit"] for r in bts}))
+            return
         k = diff_kind(bts[0]["post"], bts[1]["post"])
-        if k and not already:       # otherwise the cause has been named by the SOURCE_DATE_EPOCH matrix above
+        if k and not already:       # otherwise the cause has been named by the SOURCE_DATE_EPOCH matrix
             n0, n1 = bts[0]["side"].get("projectname"), bts[1]["side"].get("projectname")
             if multi_unnamed and n0 != n1:
                 ctx.fail("hashseed:project-name-guess", inp, "--buildtime builds guess %r and %r" % (n0, n1))
             else:
-                ctx.fail("buildtime:" + k, inp, "two builds with the same --buildtime differ in %s" % diff_snap(bts[0]["post"], bts[1]["post"])[:4])
+                ctx.fail("buildtime:" + k, inp, "two builds with the same --buildtime (hash seed, listing order and wall clock differ) "
+                         "differ in %s" % diff_snap(bts[0]["post"], bts[1]["post"])[:4])
         # observation only: --buildtime and SOURCE_DATE_EPOCH naming the same instant
-        same_name = [r for r in bts if r["side"].get("projectname") == ref["side"].get("projectname")]
-        if same_name:
-            ctx.count("buildtime-vs-epoch:" + ("same-bytes" if not diff_kind(ref["post"], same_name[0]["post"]) else "different-bytes"))
+        if ref is not None and inp.get("epoch") == str(EPOCH):
+            same_name = [r for r in bts if r["side"].get("projectname") == ref["side"].get("projectname")]
+            if same_name:
+                ctx.count("buildtime-vs-epoch:" + ("same-bytes" if not diff_kind(ref["post"], same_name[0]["post"]) else "different-bytes"))
 
 
 # ------------------------------------------------------------------ correspondence streams fed by the sidecars
@@ -463,6 +555,25 @@ def suffix_tokens() -> Tuple[str, str, str]:
     import importlib.machinery as m
     j = lambda l: ",".join(enc(s) for s in l) or "-"
     return j(m.all_suffixes()), j(m.SOURCE_SUFFIXES), j(m.EXTENSION_SUFFIXES)
+
+
+def buildtime_stream(st: Streams, p: Dict[str, Any], r: Dict[str, Any]) -> None:
+    """System.__init__ + driver.get_system's build-time decision against `buildTime`, for every build incl. refused ones"""
+    import datetime
+    opt = "-"
+    if r["tag"] == "bt":
+        opt = "t=%d" % int((datetime.datetime.strptime(BUILDTIME, "%Y-%m-%d %H:%M:%S") - datetime.datetime(1970, 1, 1)).total_seconds())
+    req = "determinism buildtime %d %s %s" % (r["clock"], classify_epoch(r["epoch"]), opt)
+    side = r["side"]
+    if "buildtime_seconds" in side:
+        impl = "time %d" % side["buildtime_seconds"]
+    elif r["exit"] == 1 and not r["traceback"]:
+        impl = "exit-error"
+    elif r["traceback"]:
+        impl = "crash"
+    else:
+        impl = "exit %s without build time" % r["exit"]
+    st.add("get_system.buildtime~buildTime", req, impl, {"project": p["id"], "SOURCE_DATE_EPOCH": r["epoch"], "tag": r["tag"], "clock": r["clock"]})
 
 
 def sidecar_streams(st: Streams, p: Dict[str, Any], src: Path, r: Dict[str, Any]) -> None:
@@ -750,16 +861,17 @@ def run(ctx: Ctx) -> None:
                 projects.append(with_name(p, "Paired"))      # same sources, name given: nothing else may differ
         run_projects(ctx, st, projects, scratch, jobs=16)
         if not ctx.quick:
-            run_projects(ctx, st, real_projects(), scratch, jobs=16)
+            run_projects(ctx, st, real_projects(), scratch, jobs=16, first_index=3)
             own = {"id": "pydoctor-own-sources", "srcroot": str(REPO), "roots": ["pydoctor"],
-                   "args": ["--docformat=epytext", "--project-name=pydoctor"], "explicit": "pydoctor", "kind": "own-sources", "files": {}}
+                   "args": ["--docformat=epytext", "--project-name=pydoctor"], "explicit": "pydoctor", "kind": "own-sources", "files": {},
+                   "epoch": "0"}
             run_projects(ctx, st, [own], scratch, jobs=10)
         st.flush(ctx)
     finally:
         shutil.rmtree(scratch, ignore_errors=True)
 
 
-def run_projects(ctx: Ctx, st: Streams, projects: List[Dict[str, Any]], scratch: Path, jobs: int) -> None:
+def run_projects(ctx: Ctx, st: Streams, projects: List[Dict[str, Any]], scratch: Path, jobs: int, first_index: int = 0) -> None:
     tasks = []
     prepared = []
     mats = []
@@ -770,12 +882,15 @@ def run_projects(ctx: Ctx, st: Streams, projects: List[Dict[str, Any]], scratch:
         base.mkdir(parents=True)
         src = materialise(p, base)
         prepared.append((p, src, base))
+        p.setdefault("epoch", EPOCHS[(n + first_index) % len(EPOCHS)])
         for hs in seeds:
             for mode in modes:
-                tasks.append((n, hs, mode, False))
-        tasks.append((n, seeds[-1], modes[-1], True))
-        tasks.append((n, seeds[0], modes[0], True))
-    results: List[Dict[Tuple[int, str, bool], List[Dict[str, Any]]]] = [dict() for _ in projects]
+                tasks.append((n, hs, mode, ""))
+        tasks.append((n, seeds[0], modes[0], "clock"))
+        tasks.append((n, seeds[-1], modes[-1], "bt"))
+        tasks.append((n, seeds[0], modes[0], "bt"))
+        tasks.append((n, seeds[1], modes[0], "noenv"))
+    results: List[Dict[Tuple[int, str, str], List[Dict[str, Any]]]] = [dict() for _ in projects]
 
     def work(t):
         n, hs, mode, bt = t
@@ -793,12 +908,13 @@ def run_projects(ctx: Ctx, st: Streams, projects: List[Dict[str, Any]], scratch:
         oracle(ctx, p, results[n], seeds, modes)
         for rs in results[n].values():
             for r in rs:
+                buildtime_stream(st, p, r)
                 if r["exit"] in (0, 2, 3):
                     sidecar_streams(st, p, src, r)
         if len(ctx.samples) < 3 and p.get("kind") == "generated":
-            ref = results[n][(seeds[0], modes[0], False)][0]
+            ref = results[n][(seeds[0], modes[0], "")][0]
             ctx.samples.append({"project": p["id"], "roots": p["roots"], "args": p["args"], "files": sorted(p["files"]),
-                                "output_files": len(ref["post"]), "guessed_or_given_name": ref["side"].get("projectname")})
+                                "SOURCE_DATE_EPOCH": p["epoch"], "output_files": len(ref["post"]), "guessed_or_given_name": ref["side"].get("projectname")})
         if not p.get("srcroot"):
             shutil.rmtree(base, ignore_errors=True)
 
